@@ -217,9 +217,24 @@ FAILING = {
     'PROBEKEXBAD': mk_PROBEKEXBAD, 'PROBEHOSTKEYBAD': mk_PROBEHOSTKEYBAD, 'PROBEDEBUGBAD': mk_PROBEDEBUGBAD,
 }
 
+# a peer that sends part of its identification string (or a whole line before it) late - well inside the timeout, a millisecond before
+# it runs out, at the very moment it runs out - and then nothing more, with the connection left open
+def _mk_partial(d, motd):
+    def mk(label):
+        if motd:
+            s = peer.Server(label=label, banner=b'SSH-2.0-OpenSSH_9.6', pre_banner=[b'Welcome to this host'])
+            s._planned = {(label, 0, 0): ('late_then', d, ('split', 5)), (label, 0, 1): ('trunc_stall', 0)}
+            return s
+        return _faulty(label, 0, ('late_then', d, ('trunc_stall', 7)))
+    return mk
+
+
+FAILING_EXTRA = {'%s@%s' % ('MOTD' if motd else 'FRAG', d): _mk_partial(d, motd) for motd in (False, True) for d in (1.0, 4.999, 'timeout')}
+
 ALL = dict(HEALTHY)
 ALL.update(FAILING)
 ALL.update(HEALTHY_EXTRA)
+ALL.update(FAILING_EXTRA)
 
 
 def host_label(i):
